@@ -156,7 +156,7 @@ func c05GenOptions(rt *rapid.T, f *c05Fld) {
 	}
 	wantDef := presence == "default" || presence == "both"
 	if !c05IsScalar(k) {
-		if wantDef && k == "slice" && c05IsScalar(f.T.E.K) && !f.T.E.P && rapid.IntRange(0, 3).Draw(rt, "slicedef") != 0 {
+		if k == "slice" && c05IsScalar(f.T.E.K) && !f.T.E.P && (wantDef || rapid.IntRange(0, 2).Draw(rt, "slicedef") == 0) {
 			var d string
 			if f.T.E.K == "string" {
 				d = c05Pick(rt, "sdefs", []string{"[x,y]", "[a]", "[dev, prod,test]"})
@@ -688,6 +688,9 @@ func (g *c05DocGen) member(f *c05Fld, i, depth int, m *[]c05KV) {
 		if f.T.K == "map" && !f.Opt || f.T.K == "struct" && !f.Opt {
 			weights[1] = 0
 		}
+		if f.T.K == "slice" && f.Def != nil {
+			weights[0], weights[1] = 50, 50 // declared slice defaults: a rare shape, exercise the default often
+		}
 		if g.p5 && (!f.Opt || f.Def != nil || len(f.Opts) > 0 || f.Rng != nil || (f.T.K == "struct" && !f.T.P)) {
 			weights[1] = 0
 		}
@@ -702,6 +705,9 @@ func (g *c05DocGen) member(f *c05Fld, i, depth int, m *[]c05KV) {
 		}
 		if mayBeAbsent && !g.focused {
 			weights[1] = 24
+		}
+		if f.T.K == "slice" && f.Def != nil {
+			weights[1] = 50
 		}
 		if !(c05IsNumeric(f.T.K) || f.T.K == "string" || f.T.K == "dur") {
 			weights[0] += weights[2]
